@@ -73,6 +73,17 @@ PROPS['C14'] = dict(
     explanation='kernel clauses proved: substitution callback rendering, single-pass, #mesondefine rendering; regex recognition / cmake formats / line loop / generated header: bounded stand-in',
     not_decided=['cmake ${VAR} / #cmakedefine scanner (index loop with in-place mutation)', 'every other byte copied unchanged: follows from re.sub semantics (assumed) and the bounded scanner comparison'],
 )
+PROPS['C02'] = dict(
+    modules=['contracts.parser'],
+    bounded=['bounded.parser'],
+    level='other',
+    design_ref='DESIGN.md §4 C02',
+    technique='deductive (kernel): SMT audit of the real token table (regex languages via Python\'s own pattern parser) against the AST of Lexer.lex — progress and newline bookkeeping per token kind; totality, tiling, positions, parser round trip and node extents bounded-exhaustive over short texts/token strings and the shipped build files',
+    level_text='Discharged for all strings: no pattern of the token table matches the empty string (the scan advances), and every token kind whose language admits a newline has a lineno update in lex (this obligation failed for string/fstring on the pinned tree and found the fixed line-number defect). Everything else about C02 (tiling, located errors, lossless printing, extents) is checked by exhaustive enumeration to a stated bound, labelled bounded.',
+    level_note='Parser token accounting and the printer visitors are NOT under contract; the bounded layer enumerates all texts <= 4 symbols / token strings <= 3 tokens (quick) and the repository build files.',
+    explanation='kernel: token-table obligations (SMT, all strings); the rest of the property is a bounded stand-in (see coverage.bounded)',
+    not_decided=['parser token accounting (every consumed token is in the tree) as a proof', 'printer visitors'],
+)
 
 # properties with no check yet or outside the technique, each with the reason
 NOT_APPLICABLE = {
